@@ -26,9 +26,13 @@
                   keys of the raw dict (they live in the class list / style map) and print a boolean attribute with
                   an empty value bare.  The library does the latter (`<input checked>`): `dom_differs_on_empty_boolean`.
     * `AttrInv`/`DictDom`  the attribute store is a Python dict (pairwise distinct keys) — AttrStores' invariant.
-    * `FeedDom`   the formatter model strips with all of `str.isspace()`, model (1) with the ASCII part (AttrStores,
-                  `fmt_differs_on_nbsp`); and a leading declaration is a doctype (`handle_decl` is only ever called for
-                  one).  The library agrees with model (6) on the first: `builders_differ_on_nbsp_data`.
+    * `LeadDeclOK`  a leading declaration is a doctype (`handle_decl` is only ever called for one):
+                  `builders_differ_on_non_doctype_decl`.
+  A former side condition is gone: the formatter model stripped with all of `str.isspace()`, model (1) with the ASCII
+  part, so top-level U+00A0 text (and `class="\xa0a"`, AttrStores) told them apart and the library agreed with model
+  (6) — this module found that (`builders_differ_on_nbsp_data`, condition `FeedDom`).  `isWs` of Model/Basic.lean is now
+  all of `str.isspace()`; the two builders agree on every token list with `LeadDeclOK`, and the former counter-example is
+  an instance of the agreement (`builders_agree_on_nbsp_data`).
 -/
 import AHP.Lemmas.TreeModelsCreate
 import AHP.Lemmas.TreeModelsXPath
@@ -283,13 +287,13 @@ example : ∃ d, feedTokens sampleToks = .doc d true ∧
 
 /-- **`Fmt.Plain.feed` = the image of `Builder.feedTokens`**, for every token list of the domain: same exception
     or same doctype and same root (up to the ghost `verb` flags, which no function of the formatter model reads). -/
-theorem plain_builders_agree (toks : List Token) (hd : FeedDom toks) :
+theorem plain_builders_agree (toks : List Token) (hd : LeadDeclOK toks) :
     (Fmt.Plain.feed (toks.map tokF)).map viewF = feedViewF (feedTokens toks) := feed_agree toks hd
 
 /-- step by step: from related states, any pass ends in related states or in `MultipleRootNodeException` on both
     sides -/
-theorem plain_passes_agree (ts : List Token) {s : Fmt.St} {b : BState} (h : Sim s b.tree b.doctype)
-    (hd : ∀ tok ∈ ts, TokDom tok) : SimRun (run b ts) (Fmt.Plain.run (ts.map tokF) s) := sim_run ts h hd
+theorem plain_passes_agree (ts : List Token) {s : Fmt.St} {b : BState} (h : Sim s b.tree b.doctype) :
+    SimRun (run b ts) (Fmt.Plain.run (ts.map tokF) s) := sim_run ts h
 
 /-- `feedViewF` loses nothing: the plain parser raises `MultipleRootNodeException` only -/
 theorem plain_parser_raises (toks : List Token) (e : Exc) (h : feedTokens toks = .raised e) : e = .multipleRoot :=
@@ -297,77 +301,71 @@ theorem plain_parser_raises (toks : List Token) (e : Exc) (h : feedTokens toks =
 
 /-- … and so do `parseStr` + `getHTML` of the two models (the string C01–C03 reason about is the string C11
     compares the formatter with). -/
-theorem plain_getHTML_agree (toks : List Token) (hd : FeedDom toks) :
+theorem plain_getHTML_agree (toks : List Token) (hd : LeadDeclOK toks) :
     Fmt.Plain.html (toks.map tokF) =
       (match feedTokens toks with
        | .doc d _ => (match d.html with | some s => .ok s | none => .error .noRoot)
        | .raised _ => .error .multipleRoot) := plain_html_agree toks hd
 
-/-- the domain contains every ASCII token list whose declarations are doctypes -/
-theorem feedDom_of_ascii {toks : List Token}
-    (ha : ∀ n a, (Token.start n a ∈ toks ∨ Token.startend n a ∈ toks) → ∀ p ∈ a, Ascii (p.2.getD []))
-    (hdata : ∀ d, Token.data d ∈ toks → Ascii d)
-    (hdecl : ∀ d, Token.decl d ∈ toks → Fmt.isDoctype d = true) : FeedDom toks where
-  each := by
-    intro tok ht
-    cases tok with
-    | start n a => exact fmtDomain_of_ascii (ha n a (Or.inl ht))
-    | startend n a => exact fmtDomain_of_ascii (ha n a (Or.inr ht))
-    | data d =>
-      show isBlank d = (Fmt.pyStrip d).isEmpty
-      rw [pyStrip_eq (noUniWs_of_ascii (hdata d ht))]; rfl
-    | _ => trivial
-  lead := by
-    match toks, hdecl with
-    | [], _ => trivial
-    | .decl d :: _, h => exact h d (by simp)
-    | .data _ :: .decl d :: _, h => exact h d (by simp)
-    | .data _ :: [], _ => trivial
-    | .data _ :: .unknownDecl _ :: _, _ => trivial
-    | .data _ :: .comment _ :: _, _ => trivial
-    | .data _ :: .pi _ :: _, _ => trivial
-    | .data _ :: .start _ _ :: _, _ => trivial
-    | .data _ :: .startend _ _ :: _, _ => trivial
-    | .data _ :: .end_ _ :: _, _ => trivial
-    | .data _ :: .data _ :: _, _ => trivial
-    | .data _ :: .entity _ :: _, _ => trivial
-    | .data _ :: .charref _ :: _, _ => trivial
-    | .unknownDecl _ :: _, _ => trivial
-    | .comment _ :: _, _ => trivial
-    | .pi _ :: _, _ => trivial
-    | .start _ _ :: _, _ => trivial
-    | .startend _ _ :: _, _ => trivial
-    | .end_ _ :: _, _ => trivial
-    | .entity _ :: _, _ => trivial
-    | .charref _ :: _, _ => trivial
+/-- the domain contains every token list whose declarations are doctypes — whatever characters the tokens carry
+    (formerly `feedDom_of_ascii`, which also needed ASCII attribute values and data) -/
+theorem leadDeclOK_of_doctypes {toks : List Token}
+    (hdecl : ∀ d, Token.decl d ∈ toks → Fmt.isDoctype d = true) : LeadDeclOK toks := by
+  match toks, hdecl with
+  | [], _ => trivial
+  | .decl d :: _, h => exact h d (by simp)
+  | .data _ :: .decl d :: _, h => exact h d (by simp)
+  | .data _ :: [], _ => trivial
+  | .data _ :: .unknownDecl _ :: _, _ => trivial
+  | .data _ :: .comment _ :: _, _ => trivial
+  | .data _ :: .pi _ :: _, _ => trivial
+  | .data _ :: .start _ _ :: _, _ => trivial
+  | .data _ :: .startend _ _ :: _, _ => trivial
+  | .data _ :: .end_ _ :: _, _ => trivial
+  | .data _ :: .data _ :: _, _ => trivial
+  | .data _ :: .entity _ :: _, _ => trivial
+  | .data _ :: .charref _ :: _, _ => trivial
+  | .unknownDecl _ :: _, _ => trivial
+  | .comment _ :: _, _ => trivial
+  | .pi _ :: _, _ => trivial
+  | .start _ _ :: _, _ => trivial
+  | .startend _ _ :: _, _ => trivial
+  | .end_ _ :: _, _ => trivial
+  | .entity _ :: _, _ => trivial
+  | .charref _ :: _, _ => trivial
 
-theorem sampleToks_dom : FeedDom sampleToks where
-  each := by
-    intro tok ht
-    simp only [sampleToks, List.mem_cons, List.not_mem_nil, or_false] at ht
-    rcases ht with rfl | rfl | rfl | rfl | rfl
-    · intro p hp; cases hp
-    · intro p hp; cases hp
-    · show isBlank _ = _; decide
-    · trivial
-    · intro p hp; cases hp
-  lead := by simp [sampleToks, LeadDeclOK]
+theorem sampleToks_lead : LeadDeclOK sampleToks := by simp [sampleToks, LeadDeclOK]
 
 example : (Fmt.Plain.feed (sampleToks.map tokF)).map viewF = feedViewF (feedTokens sampleToks) :=
-  plain_builders_agree sampleToks sampleToks_dom
+  plain_builders_agree sampleToks sampleToks_lead
 
 example : Fmt.Plain.html (sampleToks.map tokF) = .ok "<a ><b >x</b></a><c />".toList := by rfl
 
-/-- `FeedDom` is needed (1): top-level data that is white space to `str.strip()` but not ASCII white space — U+00A0
-    before the root.  The formatter model skips it (one root `a`), model (1) counts it as content (second pass,
-    wrapper root).  The library does what the formatter model does. -/
-theorem builders_differ_on_nbsp_data :
+/-- The input on which the two builders used to disagree: top-level data that is white space to `str.strip()` but not
+    ASCII white space — U+00A0 before the root.  Both models now skip it (`not data.strip()`): first pass, one root
+    `a`, as in the library.  An instance of `plain_builders_agree`; replaces the former counter-example
+    `builders_differ_on_nbsp_data`. -/
+theorem builders_agree_on_nbsp_data :
     (Fmt.Plain.feed ([Token.data [Char.ofNat 0xa0], .start ['a'] [], .end_ ['a']].map tokF)).map viewF
         = .ok (none, some (.elem .normal ['a'] {} false [] []))
-    ∧ ∃ d, feedTokens [Token.data [Char.ofNat 0xa0], .start ['a'] [], .end_ ['a']] = .doc d true := by
-  refine ⟨by rfl, _, rfl⟩
+    ∧ feedViewF (feedTokens [Token.data [Char.ofNat 0xa0], .start ['a'] [], .end_ ['a']])
+        = .ok (none, some (.elem .normal ['a'] {} false [] []))
+    ∧ ∃ d, feedTokens [Token.data [Char.ofNat 0xa0], .start ['a'] [], .end_ ['a']] = .doc d false := by
+  refine ⟨by rfl, by rfl, _, rfl⟩
 
-/-- `FeedDom` is needed (2): a leading declaration that is not a doctype, after blanks — never produced by the
+/-- non-vacuity beyond ASCII: non-ASCII white space in a `class` value, in top-level data (U+3000, skipped) and inside
+    an element (kept) -/
+def sampleUniToks : List Token :=
+  [.data [Char.ofNat 0x3000, '\n'], .start "a".toList [("class".toList, some [Char.ofNat 0xa0, 'k', Char.ofNat 0x2003])],
+   .data [Char.ofNat 0xa0], .end_ "a".toList, .data [Char.ofNat 0x85]]
+
+example : (Fmt.Plain.feed (sampleUniToks.map tokF)).map viewF = feedViewF (feedTokens sampleUniToks) :=
+  plain_builders_agree sampleUniToks (by simp [sampleUniToks, LeadDeclOK])
+
+example : Fmt.Plain.html (sampleUniToks.map tokF) = .ok ("<a class=\"k\" >".toList ++ [Char.ofNat 0xa0] ++ "</a>".toList) := by
+  rfl
+
+/-- `LeadDeclOK` is needed: a leading declaration that is not a doctype, after blanks — never produced by the
     tokenizer (`handle_decl` is called for `<!doctype …>` only).  Model (1) puts the wrapper start tag after it
     (the blanks stay outside), the formatter model in front (the blanks become a text block of the wrapper). -/
 theorem builders_differ_on_non_doctype_decl :
